@@ -1,0 +1,188 @@
+//go:build verif
+
+// Copyright 2026 The Scriggo Authors. All rights reserved.
+// Use of this source code is governed by a BSD-style
+// license that can be found in the LICENSE file.
+
+package main
+
+import (
+	"bufio"
+	"bytes"
+	"encoding/hex"
+	"encoding/json"
+	"fmt"
+	"net/url"
+	"os"
+	"testing"
+
+	"github.com/yuin/goldmark/util"
+)
+
+// Verification driver for property C29 (rewriting Markdown link destinations
+// changes only link destinations). Compiled only with the "verif" build tag.
+// The replacer lives in package main, so an external harness cannot import
+// it: this test reads cases from the file named by VERIF_C29_CASES (one JSON
+// object per line), runs the real functions on each of them and writes one
+// JSON result per line to the file named by VERIF_C29_OUT, flushing after
+// every result so that the two files may also be named pipes (the harness
+// then keeps one test process for all its questions). It adds no behaviour
+// and asserts nothing.
+
+type verifC29Case struct {
+	Op    string     `json:"op"`
+	Src   string     `json:"src,omitempty"`  // hex
+	Base  string     `json:"base,omitempty"` // base URL
+	Dir   string     `json:"dir,omitempty"`
+	Repls [][]string `json:"repls,omitempty"` // start, stop (decimal), repl (hex)
+	Pos   int        `json:"pos,omitempty"`
+}
+
+type verifC29Result struct {
+	Out   string     `json:"out,omitempty"`   // hex
+	Out2  string     `json:"out2,omitempty"`  // hex: the replacer applied to its own output
+	Repls [][]string `json:"repls,omitempty"` // collected replacements: start, stop, repl (hex)
+	Ints  []int      `json:"ints,omitempty"`
+	OK    bool       `json:"ok,omitempty"`
+	Err   string     `json:"err,omitempty"`
+	Panic string     `json:"panic,omitempty"`
+}
+
+func verifC29Hex(b []byte) string { return hex.EncodeToString(b) }
+
+func verifC29Run(c verifC29Case) (res verifC29Result) {
+	defer func() {
+		if r := recover(); r != nil {
+			res = verifC29Result{Panic: fmt.Sprint(r)}
+		}
+	}()
+	src, err := hex.DecodeString(c.Src)
+	if err != nil {
+		return verifC29Result{Err: "bad hex"}
+	}
+	if src == nil {
+		src = []byte{}
+	}
+	switch c.Op {
+	case "replace":
+		base, err := url.Parse(c.Base)
+		if err != nil {
+			return verifC29Result{Err: "bad base"}
+		}
+		r := linkDestinationReplacer{base: base, dir: c.Dir}
+		for _, rp := range r.collectReplacements(src) {
+			res.Repls = append(res.Repls, []string{fmt.Sprint(rp.start), fmt.Sprint(rp.stop), verifC29Hex([]byte(rp.repl))})
+		}
+		var dst bytes.Buffer
+		if err := r.replace(&dst, src); err != nil {
+			return verifC29Result{Err: err.Error()}
+		}
+		out := append([]byte{}, dst.Bytes()...)
+		res.Out = verifC29Hex(out)
+		var dst2 bytes.Buffer
+		if err := r.replace(&dst2, out); err != nil {
+			return verifC29Result{Err: err.Error()}
+		}
+		res.Out2 = verifC29Hex(dst2.Bytes())
+	case "apply":
+		var repls []replacement
+		for _, rp := range c.Repls {
+			var start, stop int
+			fmt.Sscan(rp[0], &start)
+			fmt.Sscan(rp[1], &stop)
+			text, _ := hex.DecodeString(rp[2])
+			repls = append(repls, replacement{start: start, stop: stop, repl: string(text)})
+		}
+		var dst bytes.Buffer
+		dst.WriteString("stale")
+		linkDestinationReplacer{}.applyReplacements(&dst, src, repls)
+		res.Out = verifC29Hex(dst.Bytes())
+	case "escape":
+		res.Out = verifC29Hex([]byte(markdownURLEscape(string(src))))
+	case "unescape":
+		s, err := markdownUnescape(src)
+		if err != nil {
+			return verifC29Result{Err: err.Error()}
+		}
+		res.Out = verifC29Hex([]byte(s))
+	case "roundtrip":
+		s, err := markdownUnescape([]byte(markdownURLEscape(string(src))))
+		if err != nil {
+			return verifC29Result{Err: err.Error()}
+		}
+		res.Out = verifC29Hex([]byte(s))
+	case "tables":
+		// isMarkdownEscapable, util.IsPunct, util.IsSpace for all 256 bytes
+		for c := 0; c < 256; c++ {
+			v := 0
+			if isMarkdownEscapable(byte(c)) {
+				v |= 1
+			}
+			if util.IsPunct(byte(c)) {
+				v |= 2
+			}
+			if util.IsSpace(byte(c)) {
+				v |= 4
+			}
+			res.Ints = append(res.Ints, v)
+		}
+	case "destination":
+		start, stop, after, ok := parseDestination(src, c.Pos)
+		res.Ints, res.OK = []int{start, stop, after}, ok
+	case "title":
+		end, ok := parseTitle(src, c.Pos)
+		res.Ints, res.OK = []int{end}, ok
+	case "labelend":
+		res.Ints = []int{findLabelEnd(src, c.Pos)}
+	case "inlinedest":
+		start, stop, end, ok := parseInlineDestination(src, c.Pos)
+		res.Ints, res.OK = []int{start, stop, end}, ok
+	case "refdef":
+		start, stop, ok := parseReferenceDefinition(src)
+		res.Ints, res.OK = []int{start, stop}, ok
+	case "fence":
+		ok, ch, n := isFenceStart(src)
+		res.Ints, res.OK = []int{int(ch), n}, ok
+	case "fenceclose":
+		res.OK = isFenceClose(src, byte(c.Pos>>16), c.Pos&0xffff)
+	case "indented":
+		res.OK = isIndentedCode(src)
+	default:
+		return verifC29Result{Err: "unknown op"}
+	}
+	return res
+}
+
+func TestVerifC29(t *testing.T) {
+	in, out := os.Getenv("VERIF_C29_CASES"), os.Getenv("VERIF_C29_OUT")
+	if in == "" || out == "" {
+		t.Skip("VERIF_C29_CASES / VERIF_C29_OUT not set")
+	}
+	fi, err := os.Open(in)
+	if err != nil {
+		t.Fatal(err)
+	}
+	defer fi.Close()
+	fo, err := os.Create(out)
+	if err != nil {
+		t.Fatal(err)
+	}
+	defer fo.Close()
+	w := bufio.NewWriter(fo)
+	defer w.Flush()
+	sc := bufio.NewScanner(fi)
+	sc.Buffer(make([]byte, 1<<20), 1<<26)
+	enc := json.NewEncoder(w)
+	for sc.Scan() {
+		var c verifC29Case
+		if err := json.Unmarshal(sc.Bytes(), &c); err != nil {
+			enc.Encode(verifC29Result{Err: "bad case: " + err.Error()})
+		} else {
+			enc.Encode(verifC29Run(c))
+		}
+		w.Flush()
+	}
+	if err := sc.Err(); err != nil {
+		t.Fatal(err)
+	}
+}
